@@ -118,6 +118,27 @@ def check(ctx: Ctx) -> None:
         from_args = any(l.startswith('param:args') or 'attr:args.amount' in os_ or "const:'amount'" == l for l, os_ in efl.leaf_paths(a_, c))
         ctx.check(from_args and not changed, 'C16.R4', ex, 'explain-amount-as-given', 'the --amount given to explain is the amount matched',
                   f'explain_description(amount={src(a_)}) went through {changed}: a rule with `amount < 0` (refunds, deposits) is decided differently by `tally explain` than by `tally up`', c)
+    # `tally explain <name>`: the merchant `up` reported under exactly that name is the one explained.  A merchant found by folding the case or
+    # by substring may only be shown when no merchant has the name as typed (two merchants may differ in letter case only: IKEA / Ikea).
+    pm = [c for c in efl.calls('_print_merchant_explanation') if c.args]
+    if not pm:
+        ctx.unknown('C16.R4', ex, 'cmd_explain no longer calls _print_merchant_explanation')
+    qloops = [a for c in pm for a in ancestors(c) if isinstance(a, ast.For) and isinstance(a.target, ast.Name) and 'merchant_names' in src(a.iter)]
+    if not qloops:
+        ctx.unknown('C16.R4', ex, 'the loop over the merchant names given on the command line was not found')
+    q = qloops[0].target.id
+    for c in pm:
+        if not any(a is qloops[0] for a in ancestors(c)):
+            continue
+        g = efl.cfg.guard_literals(efl.stmt_of(c))
+        exact_hit = (f'{q} in all_merchants', True) in g
+        exact_miss = (f'{q} in all_merchants', False) in g
+        ops = {o for _l, os_ in efl.leaf_paths(c.args[0], c) for o in os_}
+        folded = bool(ops & {'call:lower', 'call:upper', 'call:casefold'}) or not (isinstance(c.args[0], ast.Name) and c.args[0].id == q)
+        ok = (exact_hit and isinstance(c.args[0], ast.Name) and c.args[0].id == q) or exact_miss or not folded
+        ctx.check(ok, 'C16.R4', ex, f'explain-exact-name-first:{src(c.args[0])[:30]}', 'a merchant found by a looser match is shown only when no merchant has the name as typed',
+                  f'_print_merchant_explanation({src(c.args[0])}, …) is reached without `{q} in all_merchants` having been tried and failed: when two merchants differ in letter case only, '
+                  f'`tally explain` shows the classification of the other one, not the one `tally up` reported under that name', c)
     fs = {k: proj.func(v) for k, v in COMMANDS.items()}
     feats = {k: _features(ctx, f) for k, f in fs.items()}
     ref = feats['up']
